@@ -6,19 +6,25 @@ THEOREMS = ['C01_spec_invariant', 'C01_refused_changes_nothing', 'C01_add_fp_exa
 
 
 def system_check(ctx, pid, n_hist, gen_kwargs, reopen_prob=0.0, max_gen=1, nops=(5, 30), ncfg=24, max_shrink=12,
-                 extra_oracle=None, label='history'):
+                 extra_oracle=None, label='history', extra=()):
     """Generic engine: histories -> implementation -> (write, reopen, API view) -> Coq FsSpec comparison."""
     rng = ctx.rng
     cfgs = syslevel.covering_configs(rng, ncfg)
     cases, metas = [], []
     nfail_shrunk = 0
-    for i in range(n_hist):
-        cfg = cfgs[i % len(cfgs)]
-        ops, sizes = syslevel.gen_history(rng, cfg, rng.randrange(*nops), **gen_kwargs)
-        rp = set()
-        if max_gen > 1:
-            for _ in range(rng.randrange(0, max_gen)):
-                rp.add(rng.randrange(1, max(2, len(ops))))
+    extra = list(extra)
+    for i in range(n_hist + len(extra)):
+        if i < len(extra):
+            cfg, ops, sizes, rp = extra[i]
+            rp = set(rp)
+            ctx.count('hist:recipe')
+        else:
+            cfg = cfgs[i % len(cfgs)]
+            ops, sizes = syslevel.gen_history(rng, cfg, rng.randrange(*nops), **gen_kwargs)
+            rp = set()
+            if max_gen > 1:
+                for _ in range(rng.randrange(0, max_gen)):
+                    rp.add(rng.randrange(1, max(2, len(ops))))
         run = sysrun.execute(cfg, ops, sizes, rp, keep_iso=False)
         kinds = set(op['k'] for op in ops)
         ctx.case((cfg.key(), repr(ops), tuple(sorted(rp))), len(kinds) >= 3)
@@ -92,11 +98,43 @@ def system_check(ctx, pid, n_hist, gen_kwargs, reopen_prob=0.0, max_gen=1, nops=
         'cases': len(cases), 'disagreements': len(cases) - agree}
 
 
+def recipe_extras(ctx, names, per, link=True, reopen=False):
+    """boundary recipes as (cfg, ops, sizes, reopen points); only recipes whose ops the specification knows"""
+    from harness import recipes
+    allc = syslevel.all_configs()
+    out = []
+    for name in names:
+        made = tries = 0
+        while made < per and tries < 40:
+            tries += 1
+            cfg = ctx.rng.choice(allc)
+            r = recipes.make(name, cfg, ctx.rng)
+            if r is None:
+                continue
+            ops, sizes = r
+            if any(op['k'] == 'dup_pvd' for op in ops):
+                continue
+            rp = [ctx.rng.randrange(1, len(ops))] if reopen and len(ops) > 2 and ctx.rng.random() < 0.6 else []
+            out.append((cfg, ops, dict(sizes), rp))
+            made += 1
+    if link:
+        for name, fn in sorted(recipes.LINK_RECIPES.items()):
+            for _ in range(per):
+                cfg = ctx.rng.choice(allc)
+                ops, sizes, rp = fn(cfg, ctx.rng)
+                out.append((cfg, ops, sizes, rp if reopen else []))
+    return out
+
+
+BOUNDARY = ['exact_fill', 'exact_fill_root', 'exact_fill_plus', 'ce_gap_plus', 'ce_gap_exact', 'big_records', 'udf_fid_cross', 'fat_dir_churn']
+
+
 def run(ctx):
     common.proof_stage(ctx, MODULE, THEOREMS, extra_targets=['theories/Spec/FsCases.vo'])
     common.setup_impl_path()
     n = 240 if ctx.tier == 'quick' else 3000
-    system_check(ctx, 'C01', n, dict(allow_refusals=False), nops=(5, 30) if ctx.tier == 'quick' else (10, 80))
+    system_check(ctx, 'C01', n, dict(allow_refusals=False), nops=(5, 30) if ctx.tier == 'quick' else (10, 80),
+                 extra=recipe_extras(ctx, BOUNDARY, 3 if ctx.tier == 'quick' else 25))
     ctx.cov['rule'] = ('edit histories of 5-30 accepted edits (add_fp/add_directory/rm_file/rm_directory/add_hard_link/'
                        'rm_hard_link/symlinks/hidden/El Torito) over a pairwise-covering set of configurations; '
                        'non-trivial = at least 3 different edit kinds; distinct by (configuration, history)')
